@@ -161,7 +161,82 @@ def t_kwargs(fn):
     """f(a, b) -> f(a, b) with the last positional argument of self.method calls turned into a keyword - needs signatures; skipped"""
     return False
 
-T = {"docstring": t_docstring, "noop": t_noop, "tempreturn": t_tempreturn, "else": t_else, "annassign": t_annassign,
+def t_demorgan(fn):
+    """if a and b  ->  if not (not a or not b)   (first boolean test of the function)"""
+    for b in _own_stmts(fn):
+        for st in b:
+            if isinstance(st, (ast.If, ast.While)) and isinstance(st.test, ast.BoolOp):
+                flipped = ast.Or() if isinstance(st.test.op, ast.And) else ast.And()
+                st.test = ast.UnaryOp(op=ast.Not(), operand=ast.BoolOp(op=flipped, values=[ast.UnaryOp(op=ast.Not(), operand=v) for v in st.test.values]))
+                return True
+    return False
+
+def t_yoda(fn):
+    """x == CONST -> CONST == x  (every == / != comparison against a constant or an upper-case name)"""
+    done = False
+    for n in ast.walk(fn):
+        if isinstance(n, ast.Compare) and len(n.ops) == 1 and isinstance(n.ops[0], (ast.Eq, ast.NotEq)):
+            r = n.comparators[0]
+            if isinstance(r, ast.Constant) or (isinstance(r, ast.Name) and r.id.isupper()):
+                n.left, n.comparators = r, [n.left]
+                done = True
+    return done
+
+def t_concat(fn):
+    """f"{a}.py" -> a + ".py"   (f-strings made of plain names / attributes and literals, first one of the function)"""
+    class R(ast.NodeTransformer):
+        done = False
+        def visit_JoinedStr(self, n):
+            if self.done or len(n.values) < 2:
+                return n
+            parts = []
+            for v in n.values:
+                if isinstance(v, ast.Constant):
+                    parts.append(v)
+                elif isinstance(v, ast.FormattedValue) and v.conversion == -1 and v.format_spec is None and isinstance(v.value, (ast.Name, ast.Attribute)):
+                    parts.append(ast.Call(func=ast.Name(id="str", ctx=ast.Load()), args=[v.value], keywords=[]))
+                else:
+                    return n
+            e = parts[0]
+            for q in parts[1:]:
+                e = ast.BinOp(left=e, op=ast.Add(), right=q)
+            self.done = True
+            return e
+    r = R()
+    r.visit(fn)
+    return r.done
+
+def t_mapcomp(fn):
+    """[f(x) for x in xs] -> list(map(f, xs))"""
+    class R(ast.NodeTransformer):
+        done = False
+        def visit_ListComp(self, n):
+            self.generic_visit(n)
+            if len(n.generators) == 1 and not n.generators[0].ifs and isinstance(n.generators[0].target, ast.Name) and isinstance(n.elt, ast.Call) and len(n.elt.args) == 1 and not n.elt.keywords \
+                    and isinstance(n.elt.args[0], ast.Name) and n.elt.args[0].id == n.generators[0].target.id and isinstance(n.elt.func, (ast.Name, ast.Attribute)) \
+                    and not any(isinstance(x, ast.Name) and x.id == n.generators[0].target.id for x in ast.walk(n.elt.func)):
+                self.done = True
+                return ast.Call(func=ast.Name(id="list", ctx=ast.Load()), args=[ast.Call(func=ast.Name(id="map", ctx=ast.Load()), args=[n.elt.func, n.generators[0].iter], keywords=[])], keywords=[])
+            return n
+    r = R()
+    r.visit(fn)
+    return r.done
+
+def t_augassign(fn):
+    """x = x + y -> x += y  and back  (names only)"""
+    done = False
+    for b in _own_stmts(fn):
+        for i, st in enumerate(b):
+            if isinstance(st, ast.AugAssign) and isinstance(st.target, ast.Name) and isinstance(st.op, ast.Add):
+                b[i] = ast.Assign(targets=[ast.Name(id=st.target.id, ctx=ast.Store())], value=ast.BinOp(left=ast.Name(id=st.target.id, ctx=ast.Load()), op=ast.Add(), right=st.value))
+                done = True
+            elif isinstance(st, ast.Assign) and len(st.targets) == 1 and isinstance(st.targets[0], ast.Name) and isinstance(st.value, ast.BinOp) and isinstance(st.value.op, ast.Add) \
+                    and isinstance(st.value.left, ast.Name) and st.value.left.id == st.targets[0].id:
+                b[i] = ast.AugAssign(target=ast.Name(id=st.targets[0].id, ctx=ast.Store()), op=ast.Add(), value=st.value.right)
+                done = True
+    return done
+
+T = {"demorgan": t_demorgan, "yoda": t_yoda, "concat": t_concat, "mapcomp": t_mapcomp, "augassign": t_augassign, "docstring": t_docstring, "noop": t_noop, "tempreturn": t_tempreturn, "else": t_else, "annassign": t_annassign,
      "invert": t_invert, "ifexp": t_ifexp, "splitand": t_splitand, "guard": t_guard, "kwcall": t_kwonly_call}
 
 def work(v):
